@@ -21,10 +21,10 @@ MANIFEST_ENTRY = {
                  "generated units and fixtures with Rust's own library equality and text fixed point",
     "text": "Proved (expressions): for every expression tree the rendered token sequence is a well-formed spelling whose parse is "
             "the tree, hence rendering is a fixed point on that scope; (statements) what the renderer model writes for a statement "
-            "list -- assignments, calls with all parameter forms, IF / ELSIF / ELSE, FOR [BY], WHILE, REPEAT, EXIT, RETURN, any nesting "
+            "list -- assignments, calls with all parameter forms, IF / ELSIF / ELSE, CASE, FOR [BY], WHILE, REPEAT, EXIT, RETURN, any nesting "
             "-- is a well-formed spelling of the list, so the parser model reads back exactly the list, through the function-block "
-            "entry point and with its fuel; the guard excludes negative integer constants (written '- 5': refuted by a witness, "
-            "the recorded finding) and empty loop / ELSIF bodies. The renderer model is compared token for token with write_to_string. "
+            "entry point and with its fuel; the guard excludes negative integer constants and negative CASE selector bounds (written '- 5': refuted by witnesses, "
+            "the recorded finding). The renderer model is compared token for token with write_to_string. "
             "For declarations and the remaining statement forms the round trip is decided by search: every generated unit and every fixture is parsed, rendered, re-parsed and compared with Rust's ==; the second "
             "rendering must equal the first. The renderer has several recorded defects (known findings) whose classes are excluded by "
             "predicates on the unit and on the way the round trip fails.",
@@ -61,7 +61,7 @@ def classify(text, r):
         le = b.find(b"\n", d["start"])
         line = b[ls:le if le >= 0 else len(b)].decode("utf-8", "replace")
         at = b[d["start"]:d["start"] + 12].decode("utf-8", "replace")
-        if re.search(r"(\(|,|^|\s|NOT|-)- \d", line) and (at.startswith(" ") or at[:1].isdigit() or at.startswith("-")):
+        if re.search(r"(\(|,|^|\s|NOT|-|\.\.)- \d", line) and (at.startswith(" ") or at[:1].isdigit() or at.startswith("-")):
             return "render-negative-literal-blank"
         if re.search(r"ARRAY .* OF \w+ *:= *[^\[]", line):
             return "render-array-initial-values"
